@@ -43,7 +43,7 @@ func c16(seed uint64, n int, args []string) {
 	}
 	if what == "all" || what == "live" {
 		for _, ms := range []uint32{400, 1000} {
-			if err := c16live(ms, 1900*time.Millisecond, 0); err != nil {
+			if err := c16live(ms, 0, 1900*time.Millisecond, 0); err != nil {
 				emit(map[string]interface{}{"kind": "error", "scenario": "live", "err": err.Error()})
 			}
 		}
@@ -51,8 +51,16 @@ func c16(seed uint64, n int, args []string) {
 	if what == "all" || what == "skew" {
 		// the server's clock differs from the client's: the token's createdAt is shifted, its lifetime is not
 		for _, off := range []time.Duration{500 * time.Millisecond, -400 * time.Millisecond} {
-			if err := c16live(1000, 1700*time.Millisecond, off); err != nil {
+			if err := c16live(1000, 0, 1700*time.Millisecond, off); err != nil {
 				emit(map[string]interface{}{"kind": "error", "scenario": "skew", "err": err.Error()})
+			}
+		}
+	}
+	if what == "all" || what == "revise" {
+		// a server that revises the requested lifetime down (60 s requested, 1 s granted) and up (1 s -> 4 s)
+		for _, rr := range [][2]uint32{{60000, 1000}, {1000, 4000}} {
+			if err := c16live(rr[0], rr[1], 1700*time.Millisecond, 0); err != nil {
+				emit(map[string]interface{}{"kind": "error", "scenario": "revise", "err": err.Error()})
 			}
 		}
 	}
@@ -70,8 +78,18 @@ func c16(seed uint64, n int, args []string) {
 }
 
 // c16live lets the real renewal timer run with a short lifetime while requests are issued continuously.
-func c16live(lifetimeMS uint32, dur time.Duration, srvClock time.Duration) error {
-	p, err := NewPair(PairOpts{Timeout: 2 * time.Second, LifetimeMS: lifetimeMS, SrvClock: srvClock})
+func c16live(lifetimeMS, revisedMS uint32, dur time.Duration, srvClock time.Duration) error {
+	var revise func(uint32) uint32
+	effective := lifetimeMS
+	if revisedMS != 0 {
+		revise = func(uint32) uint32 { return revisedMS }
+		if revisedMS < effective {
+			effective = revisedMS
+		}
+	} else {
+		revisedMS = lifetimeMS
+	}
+	p, err := NewPair(PairOpts{Timeout: 2 * time.Second, LifetimeMS: lifetimeMS, SrvClock: srvClock, Revise: revise})
 	if err != nil {
 		return err
 	}
@@ -80,6 +98,7 @@ func c16live(lifetimeMS uint32, dur time.Duration, srvClock time.Duration) error
 	go autoRespond(p, stop)
 	defer close(stop)
 	stallReset()
+	tokenNS := int64(p.V.SchedActiveLifetime()) // the lifetime the client uses for the first token
 	var mu sync.Mutex
 	total, failed := 0, 0
 	var errs []string
@@ -110,7 +129,8 @@ func c16live(lifetimeMS uint32, dur time.Duration, srvClock time.Duration) error
 			opn = append(opn, f.AtMS)
 		}
 	}
-	emit(map[string]interface{}{"kind": "live", "server_clock_offset_ms": float64(srvClock.Milliseconds()), "lifetime_ms": lifetimeMS, "duration_ms": float64(dur.Milliseconds()), "opn_at_ms": opn,
+	emit(map[string]interface{}{"kind": "live", "server_clock_offset_ms": float64(srvClock.Milliseconds()), "lifetime_ms": effective,
+		"requested_ms": lifetimeMS, "revised_ms": revisedMS, "token_lifetime_ns": tokenNS, "duration_ms": float64(dur.Milliseconds()), "opn_at_ms": opn,
 		"requests": total, "failed": failed, "errors": errs, "server_errors": p.Srv.Errs(), "stall_ms": stallMS()})
 	return nil
 }
